@@ -65,7 +65,7 @@ pub const GAME_RANDOM_MAX_ACTIONS: [usize; 2] = [90, 260];
 pub const GAME_EXHAUSTIVE_LEN: [usize; 2] = [3, 4];
 pub const GAME_HIST_EVERY: usize = 5;
 /// pgn group: base random games (each replayed once per ending variant), maximum length.
-pub const PGN_BASE_GAMES: [usize; 2] = [14, 1_200];
+pub const PGN_BASE_GAMES: [usize; 2] = [14, 150];
 pub const PGN_MAX_PLIES: usize = 300;
 
 pub const SEEDS_FILE: &str = "/verif/harness/seeds.txt";
